@@ -20,6 +20,7 @@ PROP_RULE = ("a case is (dataset, SELECT text); datasets: default graph + 0-3 na
              "(dataset, syntax tree).")
 
 REQ = ["KV.Sparql.Base", "KV.Sparql.Syntax", "KV.Sparql.Algebra", "KV.Sparql.Engine", "KV.Sparql.Run"]
+CLASS_CODE = {1: "subselect-in-graph-var", 2: "undef-filter-sibling", 3: "bind-target-sibling", 4: "not-of-error", 5: "bind-arg-unbound"}
 PRE = "Open Scope string_scope."
 
 FINDINGS = {
@@ -95,10 +96,10 @@ def evaluate(ctx, binpath, cases, stream, coq=True, known_ok=None):
             c["model"] = None
             try:
                 lg, ph = L.jlop(im["logical"]), L.jpop(im["physical"])
-                exprs.append("(spec_run %s %s, Some (plan_run %s %s %s, model_pattern_run %s %s %s))" % (ds, qq, qq, lg, ph, ds, qq, ph))
+                exprs.append("(spec_run %s %s, (classify_run %s, coverage_run %s %s), Some (plan_run %s %s %s, model_pattern_run %s %s %s))" % (ds, qq, qq, ds, qq, qq, lg, ph, ds, qq, ph))
             except (KeyError, TypeError, L.Unsupported) as ex:
                 c["model"] = "no plan to model: %s" % (ex,)
-                exprs.append("(spec_run %s %s, @None ((bool * bool) * list mu))" % (ds, qq))
+                exprs.append("(spec_run %s %s, (classify_run %s, coverage_run %s %s), @None ((bool * bool) * list mu))" % (ds, qq, qq, ds, qq))
         ctx.log("%s: implementation done, evaluating %d cases in Coq" % (stream, len(exprs)))
         coqv = run_model_retry(ctx, exprs)
         ctx.log("%s: Coq evaluation done" % stream)
@@ -112,8 +113,11 @@ def evaluate(ctx, binpath, cases, stream, coq=True, known_ok=None):
             if isinstance(cv, tuple) and cv and cv[0] == "ERROR":
                 ctx.broken("correspondence", stream, "Coq Spec evaluation failed: %s" % (cv[1],), {"query": c["query"]})
                 continue
-            cspec = L.from_coq_answer(cv[:2])        # Coq prints ((cols, rows), opt) as the flat triple (cols, rows, opt)
-            cv = (None, cv[2])
+            cspec = L.from_coq_answer(cv[:2])        # Coq prints ((cols, rows), x, opt) as the flat tuple (cols, rows, x, opt)
+            ccodes, cws, (cfrag, cagree) = cv[2]
+            c["coq_classes"] = (set(CLASS_CODE[k] for k in ccodes), cws)
+            c["in_theorem"] = bool(cfrag and cagree)
+            cv = (None, cv[3])
             st["model_cases"] = st.get("model_cases", 0)
             if cv[1] is None:
                 if "rows" in im.get("query", {}):
@@ -142,6 +146,16 @@ def evaluate(ctx, binpath, cases, stream, coq=True, known_ok=None):
             st["empty_answers"] += 1
         st["rows_total"] += len(spec["full"])
         classes, wellscoped = L.classify(q)
+        if coq and "coq_classes" in c:
+            if c["coq_classes"] != (classes, wellscoped):
+                ctx.broken("correspondence", stream + ":classifier", "the Python classifier of the known classes disagrees with coq/Sparql/Classes.v",
+                           {"q": q, "query": c["query"], "coq": [sorted(c["coq_classes"][0]), c["coq_classes"][1]], "python": [sorted(classes), wellscoped]})
+                classes, wellscoped = c["coq_classes"]          # the Coq classifier decides
+            if c.get("in_theorem"):
+                st["inside_hypotheses_of_C01_pattern"] = st.get("inside_hypotheses_of_C01_pattern", 0) + 1
+                if classes & {"subselect-in-graph-var", "undef-filter-sibling", "bind-target-sibling"}:
+                    ctx.broken("correspondence", stream + ":classifier", "a case inside a scoping class satisfies the hypotheses of C01_pattern",
+                               {"q": q, "query": c["query"], "classes": sorted(classes)})
         if not wellscoped:
             st["not_wellscoped_skipped"] = st.get("not_wellscoped_skipped", 0) + 1   # outside the property's quantifier
             continue
